@@ -24,6 +24,31 @@ API_FUNCS = ("get_markings", "set_markings", "remove_markings", "add_markings", 
 MUTATORS = ("set_markings", "remove_markings", "add_markings", "clear_markings")
 
 
+def rule_removal_is_a_filter(ctx):
+    """remove_markings takes out EVERY entry equal to a removed one: the markings kept are computed by a filter over all entries
+    (`[m for m in markings if m not in removed]`).  `list.remove(x)` / `del xs[i]` / `xs.pop(i)` take out ONE occurrence: a
+    (selector, marking) pair stated twice -- legal input from another producer -- survives its own removal, so "removing what
+    was added restores the original" and "queries no longer report it" fail."""
+    run = ctx.run
+    prog = ctx.prog
+    R = "C07.path-tree"
+    n = 0
+    for mod in ("stix2.markings.granular_markings", "stix2.markings.object_markings"):
+        fi = prog.func(mod + "::remove_markings")
+        n += 1
+        single = [x for x in body_walk(fi.node) if (isinstance(x, ast.Call) and isinstance(x.func, ast.Attribute)
+                                                    and x.func.attr in ("remove", "pop", "discard") and not norm(x.func.value).startswith("kwargs"))
+                  or isinstance(x, ast.Delete)]
+        filt = [c for c in body_walk(fi.node) if isinstance(c, (ast.ListComp, ast.GeneratorExp)) and any(
+            isinstance(t, ast.Compare) and isinstance(t.ops[0], (ast.NotIn, ast.NotEq)) for g_ in c.generators for i_ in g_.ifs for t in ast.walk(i_))]
+        run.check(not single and bool(filt), R, key(fi.module.relpath, fi.qualname, "removal-is-a-filter-over-all-entries"),
+                  "markings are removed one occurrence at a time (list.remove / del / pop) instead of by a filter over all entries: "
+                  "an entry stated twice survives its own removal", file=fi.module.relpath,
+                  line=(single[0].lineno if single else fi.node.lineno), function=fi.qualname,
+                  expected="[m for m in markings if m not in removed]", found=[short(x, 70) for x in single] or "no filtering comprehension")
+    return n
+
+
 def run(ctx):
     run = ctx.run
     run.explanation = (
@@ -51,6 +76,10 @@ def run(ctx):
     from .pitfalls import rule_groupby_sorted, rule_single_use_iterators
     ctx.do(rule_groupby_sorted, "C07.iterator-pitfalls", ("stix2.markings",))
     ctx.do(rule_single_use_iterators, "C07.iterator-pitfalls", ("stix2.markings",))
+    ctx.do(rule_removal_is_a_filter)
+    # whether a selector addresses something is decided by the walk of the object: the same walk rules as C08
+    from . import C08
+    ctx.do(C08.rule_truthiness, rule_id="C07.validate-first")
     from .pitfalls import rule_loop_flags_monotone
     ctx.do(rule_loop_flags_monotone, "C07.iterator-pitfalls", ("stix2.markings",))
     from .hidden_state import rule_no_hidden_state
